@@ -669,6 +669,35 @@ DIR* __wrap_opendir(const char* path) {
   unsupported_api("opendir", path); errno = ENOENT; return nullptr;
 }
 
+// C library functions that keep hidden state in one process-wide static (strtok's continuation pointer, the buffer
+// behind localtime/gmtime/ctime/asctime, the locale; glibc documents them MT-Unsafe - strerror, rand, tzset, localtime_r are MT-Safe there and are left alone).  The C library is not
+// instrumented, so ThreadSanitizer cannot see two threads colliding in them, and no lock, atomic or I/O operation
+// separates two calls, so the scheduler would never interleave them.  Each one is therefore (a) a yield point and (b)
+// an access to a stand-in variable that ThreadSanitizer does see: two tasks using one of them without synchronisation
+// are reported as the data race they are.  cctz uses none of them on the unchanged tree (time_zone_libc.cc is only
+// reached through the test-only "libc:" names).
+extern "C" void __tsan_write8(void* addr) __attribute__((weak));
+static long long g_libc_hidden_state[16];
+static void libc_hidden_state_access(int which, const char* name) {
+  if (!sim::in_library_scope()) return;
+  sim::probe("library_used_non_reentrant_libc_function");
+  (void)name;
+  sim::yield(sim::Y_OP);
+  if (__tsan_write8) __tsan_write8(&g_libc_hidden_state[which]);
+}
+char* __real_strtok(char* s, const char* d);
+char* __wrap_strtok(char* s, const char* d) { libc_hidden_state_access(0, "strtok"); return __real_strtok(s, d); }
+struct tm* __real_localtime(const time_t* t);
+struct tm* __wrap_localtime(const time_t* t) { libc_hidden_state_access(2, "localtime"); return __real_localtime(t); }
+struct tm* __real_gmtime(const time_t* t);
+struct tm* __wrap_gmtime(const time_t* t) { libc_hidden_state_access(2, "gmtime"); return __real_gmtime(t); }
+char* __real_ctime(const time_t* t);
+char* __wrap_ctime(const time_t* t) { libc_hidden_state_access(2, "ctime"); return __real_ctime(t); }
+char* __real_asctime(const struct tm* t);
+char* __wrap_asctime(const struct tm* t) { libc_hidden_state_access(2, "asctime"); return __real_asctime(t); }
+char* __real_setlocale(int c, const char* l);
+char* __wrap_setlocale(int c, const char* l) { libc_hidden_state_access(4, "setlocale"); return __real_setlocale(c, l); }
+
 // <cctype> under a "foreign" locale.
 #define SIM_CTYPE(fn, extra)                                                                          \
   int __real_##fn(int c);                                                                             \
